@@ -10,6 +10,33 @@ CHECKS = {
  "C15": ("exploration", "runtime monitor: reference-model oracle (segment-prefix order) over exhaustive small scope + seeded random strings",
          "Every call of Parse/Covers/Segments/Join on an exhaustively enumerated small scope (all commands <=4 segments over a 4-segment alphabet: all pairs, triples of a 90-command subset; all parser strings <=6 runes over a 6-rune alphabet) plus seeded random Unicode is compared with an independent 25-line model; algebraic laws (reflexive, antisymmetric, transitive, top) are asserted on the observed results. Exhaustive inside the stated scope, sampling outside it.",
          "trusts the reference model ref/command.go (self-tested against the repository's TestCovers vectors) and Go's unicode tables", "DESIGN.md §4 C15"),
+ "C01": ("exploration", "runtime monitor: reference chain predicate + metamorphic audience-independence oracle over generated deviating proof chains",
+         "ExecutionAllowed (and the args-hook variant) is observed on thousands of generated chains (conforming + 0..3 deviations of 14 kinds at first/middle/last positions, n<=8, repeated principals, constructor tokens and sealed->container->reader tokens), each under 5 invocation audiences; every acceptance is checked against an independent 30-line principal predicate and the five audience variants must agree. Sampling of an unbounded space: held on the scenarios observed, with a coverage matrix rule x position x length that must be filled.",
+         "trusts chain.PrincipalsOK (from the property text) and real key material from the committed pool; commands/policies/times kept conforming", "DESIGN.md §4 C01"),
+ "C02": ("exploration", "runtime monitor: reference command-order oracle over an exhaustive small command lattice along real proof chains",
+         "All command assignments from an 8-command lattice (equal/parent/child/sibling/textual-prefix/top) to the invocation and n<=3 (thorough n<=4) links of otherwise conforming real chains are executed, plus random longer chains; an acceptance although some link does not cover the next is a violation. Exhaustive inside the stated scope.",
+         "trusts ref.CmdCovers (self-tested against TestCovers) and chain.CommandsOK", "DESIGN.md §4 C02"),
+ "C03": ("exploration", "runtime monitor: reference policy evaluator + monotonicity (metamorphic) + hook oracles over generated chains",
+         "Policies of all statement kinds are generated over generated arguments in the fragment where every selector resolves, distributed over links in every pattern, 0..3 statements falsified at chosen positions; acceptance requires every statement true by an independent evaluator; denied chains must stay denied when a statement or link is added; with an args hook the verdict must follow the returned arguments in both directions.",
+         "trusts ref.Eval / ref.Select (self-tested); principals, commands, times kept conforming", "DESIGN.md §4 C03"),
+ "C04": ("exploration", "runtime monitor: window oracle over a bound x probe grid (IsValidAt) and over generated chains with out-of-window tokens at every position",
+         "IsValidAt is probed at 13 offsets (down to 1 ns) around every reported bound of tokens built over a full grid of absent/past/future/extreme nbf and exp, constructed and decoded; chains with expired / not-yet-active tokens at the invocation, leaf, middle and root must be denied. Bounds are >=1h from the wall clock so the clock never decides.",
+         "window = what the token reports through NotBefore()/Expiration(); instants exactly on a bound not judged", "DESIGN.md §4 C04"),
+ "C05": ("exploration", "runtime monitor: completeness oracle - chains conforming by construction (confirmed by the reference predicates) must be allowed",
+         "Rule-conforming chains of 1..8 links with every key algorithm, repeated principals, attenuating commands, satisfiable policies of all kinds, comfortable time windows and all settings of the authorization-irrelevant fields (audience x5, metadata plain/encrypted, nonce length, cause, iat, expiry), via map loader and via the four container formats, must be allowed; any error is a violation with the error text as witness.",
+         "trusts chain.Conforming; a scenario the library cannot construct/transport is inconclusive here (C07/C17 judge that)", "DESIGN.md §4 C05"),
+ "C11": ("exploration", "runtime monitor: reference three-valued evaluator + permutation / monotonicity / concatenation metamorphic oracles over generated policies and data",
+         "Match/PartialMatch of constructor-built and IPLD-decoded policies are compared with the classical reading wherever every selector resolves, and checked for operand-order and element-order independence (all orders up to 4), and+operand / all+element monotonicity, Match=>PartialMatch, concatenation, and the missing-required / missing-optional leaf rules, on data that mixes present, missing and optional-missing paths.",
+         "trusts ref.Eval; open corners (empty or, NaN, map-valued quantifier targets, differently ordered map literals) are not judged", "DESIGN.md §4 C11"),
+ "C12": ("exploration", "runtime monitor: reference selector interpreter + model-free split-compositionality oracle; exhaustive slice table",
+         "Generated selectors (all segment kinds, optional or not, boundary indexes/slices) on data of every kind are compared with a 90-line interpreter where the property pins the result, and for every split prefix|suffix the full result must equal the suffix applied to the prefix's value; slice arithmetic is exhaustive for lengths 0..6 x bounds -8..8 on lists, bytes and strings.",
+         "trusts ref.Select (Python slice semantics); failing optional slice/iterator and behaviour after 'no value' not judged", "DESIGN.md §4 C12"),
+ "C13": ("exploration", "runtime monitor: reference glob (DP) oracle over an exhaustive small scope through Policy.Match",
+         "Every pattern of length <=5 (thorough <=6) over {a,b,*,\\} x every string of length <=4 (<=5) is matched through policy.Like + Policy.Match/PartialMatch (constructor and IPLD forms) and compared with an independent tokenise+DP matcher; plus random multi-byte pairs, non-string subjects, and lone-backslash patterns at both entry points. Exhaustive inside the scope.",
+         "trusts ref.GlobMatch (self-tested against the in-tree glob table)", "DESIGN.md §4 C13"),
+ "C14": ("exploration", "runtime monitor: print/re-parse stability + independent recursive-descent parser oracle; IPLD/DAG-JSON policy round trips incl. structure mutants",
+         "Every accepted selector text (exhaustive over a 9-character alphabet to length 5/6, rendered ASTs, character mutants, all prefixes/suffixes) must print to a text that re-parses to the same segments and the same Select results, mean what an independent parser says, and never be accepted with a malformed part dropped; policies must survive FromIPLD/ToIPLD and FromDagJson deep-equal (mod selector normalisation), also after structure mutation, and constructor-built policies keep their matching behaviour.",
+         "trusts ref.ParseSel; texts with backslash / quotes inside quoted names only checked for stability", "DESIGN.md §4 C14"),
 }
 
 BUILT_LATER = {}
